@@ -70,14 +70,15 @@ PLAN = {
     "C08": dict(
         title="Announced layer shapes equal produced shapes; transitions lose nothing",
         level="proof",
-        verus=["C08_output_size.rs", "C08_flat_accept.rs", "C02_convolve.rs", "C02_deconv_forward.rs", "C02_maxpool_forward.rs", "C02_pad3d.rs", "C02_flat_view.rs", "C08_dense_after.rs"],
+        verus=["C08_output_size.rs", "C08_flat_accept.rs", "C02_convolve.rs", "C02_deconv_forward.rs", "C02_maxpool_forward.rs", "C02_pad3d.rs", "C02_flat_view.rs", "C08_dense_after.rs", "C08_spatial_builders.rs"],
         kani=True,
         native_checks=[("isqrt.floor", "(size as f32).sqrt() as usize == floor(sqrt(size)) for every size < 2^24: the contract of the opaque "
                                        "isqrt_f32 assumed by the flat-size units, by exhaustion on the real expression"),
                        ("shapes.chain", "bounded native grid: 4000 random layer chains (depth <= 4, all layer kinds, random small configurations, flat and spatial inputs); for the ~1280 "
                                         "the builder accepts (non-empty outputs): the forward and backward passes run, every layer produces the shape it announced (flattened before a dense layer), "
                                         "every weight / kernel gradient has its parameter's shape")],
-        undecided_clauses=["builder chaining over layer sequences (next inputs = previous outputs, flatten flag): not under contract; exercised by the bounded native grid shapes.chain",
+        undecided_clauses=["builder chaining is proved one step at a time (units network.convolution / deconvolution / maxpool: the new layer is created from the shape the previous layer announces; "
+                           "network.dense.after: flattened count and flatten flag) and exercised end to end by the bounded native grid shapes.chain; Network::dense's first-layer arm and Dense::create are read",
                            "flat sizes >= 2^24 (the cast to f32 is no longer exact there)"],
     ),
     "C03": dict(
